@@ -1388,6 +1388,64 @@ example :
     [some (certFor .new 2 12 (.hon 0)).toList, some (certFor .new 2 12 (.hon 1)).toList,
      some (certFor .new 2 12 (.hon 2)).toList] := by decide
 
+theorem acceptFull_eq {cfg : TlsCfg} {s : Suite} {n : Nonce} {raw raw' : List Cert}
+    (h : acceptFull cfg s n raw = some raw') : raw' = raw := by
+  unfold acceptFull at h
+  by_cases he : raw.isEmpty = true
+  · simp only [he, if_true] at h
+    have hr0 : raw = [] := by simpa using he
+    by_cases hr : cfg.requireClientCert = true
+    · simp [hr] at h
+    · simp [hr] at h
+      rw [hr0]; exact h
+  · simp only [he] at h
+    by_cases hv : cfg.hasVerifier = true
+    · simp only [hv, if_true] at h
+      by_cases hq : (verifyPeer s none n raw).isNone = true
+      · simp [hq] at h; exact h.symm
+      · simp [hq] at h
+    · simp [hv] at h; exact h.symm
+
+/-- **overlapping handshakes**: in whatever order the hellos and the certificates of any number of
+connections reach a listener, a connection is established only on certificates that pass the verifier made
+with *its own* nonce.  (Falsified by: one configuration shared by the connections of a listener — the
+verifier slot is overwritten by the next hello, seeded change C08r7-A.) -/
+theorem c08_overlapping_handshakes (s : Suite) (evs : List OvEv) :
+    ∀ st : OvSt, (∀ p ∈ st.accepted, verifyPeer s none (.hon p.1) p.2 = none) →
+      ∀ p ∈ (ovRun false s st evs).accepted, verifyPeer s none (.hon p.1) p.2 = none := by
+  induction evs with
+  | nil => intro st h; exact h
+  | cons e evs ih =>
+    intro st h
+    simp only [ovRun, List.foldl_cons]
+    apply ih
+    cases e with
+    | hello => exact h
+    | cert c raw =>
+      simp only [ovStep, Bool.false_eq_true, if_false]
+      by_cases hc : c < st.next
+      · simp only [hc, if_true]
+        cases ha : acceptHello perClientCfg s (.hon c) [] (.full raw) with
+        | none => simpa using h
+        | some raw' =>
+          simp only [Option.isSome_some, if_true]
+          intro p hp
+          rcases List.mem_cons.mp hp with rfl | hp
+          · have hv := c08_no_link_without_fresh_proof s (.hon c) [] (.full raw) raw' ha
+            have : raw' = raw := acceptFull_eq (by simpa [acceptHello] using ha)
+            subst this
+            exact hv
+          · exact h p hp
+      · simpa [hc] using h
+
+/-- the shared-slot variant is refuted: hello 0, hello 1, then connection 0 presents a proof over the nonce
+of connection 1 — accepted, although connection 0's own verifier refuses it -/
+theorem c08_shared_verifier_slot_crosses :
+    let raw := (certFor .new 2 12 (.hon 1)).toList
+    (0, raw) ∈ (ovRun true ⟨true⟩ {} [.hello, .hello, .cert 0 raw]).accepted ∧
+    verifyPeer ⟨true⟩ none (.hon 0) raw = some .signature ∧
+    (ovRun false ⟨true⟩ {} [.hello, .hello, .cert 0 raw]).accepted = [] := by decide
+
 /-! ### the code regions the model stands for
 Regenerated from /repo's source on every run (`harness/cmd/astfacts` → `OnetVerif/Shapes.lean`): the
 calls that matter for synchronisation and data flow, the lock regions and (for decision logic) the
